@@ -353,4 +353,53 @@ theorem missed_blank_lines_clamped (env : Env) (e : Entry) (v v' : Vis) (end_ : 
 example : (run (env0 ['x', ';', '\n', '\n', '\n', '\n', 'y']) .withIndent 6 (vis0 ['x', ';'] 2)).map
     (fun v' => v'.log.head?) = some (some ⟨.vspace, ['\n', '\n']⟩) := by decide +kernel
 
+/-! ## Code that was not formatted is copied (C08) -/
+
+/-- `process_missing_code` on a slice `sub` of the snippet that starts at `line_start` with `last_wspace`
+clear (which is how `write_snippet_inner` calls it: `RF.Lemmas.Missed.Inv`): no panic, and exactly
+`pmcSpec indent sub` is appended to the buffer — the complete lines of `sub`, each through `keepLine`,
+then the indented, trimmed rest if it is not blank. -/
+theorem missed_code_kept_verbatim (env : Env) (snippet pre sub tail : List Char)
+    (hs : snippet = pre ++ sub ++ tail) (st : RF.Missed.Status) (v : Vis)
+    (hls : st.line_start = utf8Len pre) (hlw : st.last_wspace = none) (indent : List Char)
+    (hind : indentStr? env v.blockIndent = some indent) :
+    ∃ st' v', processMissingCode env snippet sub (utf8Len pre) st v = some (st', v') ∧
+      v'.buffer = v.buffer ++ pmcSpec indent sub :=
+  processMissingCode_exact env snippet pre sub tail hs st v hls hlw indent hind
+
+/-- "Verbatim modulo trailing white space", exactly: a complete line is copied as it is, or without its
+last character, which is then white space — the latter precisely when the line ends in an odd number
+of white-space characters. -/
+theorem missed_code_line_verbatim (l : List Char) :
+    (keepLine l = l ∨ ∃ c, isWs c = true ∧ l = keepLine l ++ [c]) ∧
+      (keepLine l ≠ l → trailWs l % 2 = 1) := by
+  refine ⟨keepLine_cases l, ?_⟩
+  intro h
+  unfold keepLine at h
+  by_cases hodd : trailWs l % 2 = 1
+  · exact hodd
+  · rw [if_neg hodd] at h; exact absurd rfl h
+
+/-- When every complete line ends in at most one blank, the lines come out without trailing white
+space (`str::trim_end`). -/
+theorem missed_code_stripped_partial (indent sub : List Char) (h : oneTrail [] sub = true) :
+    pmcSpec indent sub = stripLines [] sub ++
+      (if (trim (lastPart [] sub)).isEmpty then [] else indent ++ trim (lastPart [] sub)) := by
+  unfold pmcSpec; rw [pmcLines_stripped sub [] h]
+
+example : oneTrail [] ['a', ' ', '\n', 'b', '\r', '\n', ' ', 'c'] = true ∧
+    pmcSpec [' ', ' '] ['a', ' ', '\n', 'b', '\r', '\n', ' ', 'c'] =
+      ['a', '\n', 'b', '\n', ' ', ' ', 'c'] := by decide +kernel
+
+/-- Two blanks at the end of a line are both kept (`last_wspace` is set by the first and cleared by the
+second), three lose only the last: trailing white space is not stripped in general. -/
+theorem missed_code_stripped_counterexample :
+    pmcSpec [] ['a', ' ', ' ', '\n'] = ['a', ' ', ' ', '\n'] ∧
+      pmcSpec [] ['a', ' ', ' ', ' ', '\n'] = ['a', ' ', ' ', '\n'] ∧
+      stripLines [] ['a', ' ', ' ', '\n'] = ['a', '\n'] := by decide +kernel
+
+/-- … seen through the whole call: `x;` then a line of code with two trailing blanks. -/
+example : (run (env0 ['x', ';', '\n', 'a', ' ', ' ', '\n', 'y']) .withIndent 7 (vis0 ['x', ';'] 2)).map
+    (·.buffer) = some ['x', ';', '\n', 'a', ' ', ' ', '\n', ' ', ' ', ' ', ' '] := by decide +kernel
+
 end RF.Props.MissedSpans
